@@ -112,13 +112,17 @@ def encode_file(rec):
             for name in names:
                 defs += '%-4s%3d ' % (name, packed[(li, name)][4])
         lenh = 108 + len(defs)
-        label = '%s%2d%2d%4s%4d%14.7E%14.7E' % (tstr, 0, 99, 'INDX', 0, 0.0, 0.0)
+        # grid field: two characters; grids with 1000 or more points on an axis store the thousands as
+        # letters (chr(64 + thousands) for x then y) and the remainder in the 3-digit NX / NY fields
+        gridtxt = '99' if nx < 1000 and ny < 1000 else chr(64 + nx // 1000) + chr(64 + ny // 1000)
+        label = '%s%2d%2s%4s%4d%14.7E%14.7E' % (tstr, 0, gridtxt, 'INDX', 0, 0.0, 0.0)
         assert len(label) == 50, len(label)
         hdr = '%4s%3d%2d' % ('VRFY', 0, 0)
         for v in (90.0, 0.0, rec.get('dlat', 1.0), rec.get('dlon', 1.0), 0.0, 0.0, 0.0, 1.0, 1.0,
                   rec.get('lat0', -10.0), rec.get('lon0', 20.0), 0.0):
             hdr += '%7.2f' % v
-        hdr += '%3d%3d%3d%2d%4d' % (nx, ny, nz, 2, lenh)
+        hdr += '%3d%3d%3d%2d%4d' % (nx % 1000 if gridtxt != '99' else nx, ny % 1000 if gridtxt != '99' else ny,
+                                    nz, 2, lenh)
         assert len(hdr) == 108, len(hdr)
         index = (label + hdr + defs).ljust(recl)
         assert len(index) == recl, 'grid too small for the index record'
@@ -127,7 +131,7 @@ def encode_file(rec):
             names = sfcnames if li == 0 else upnames
             for name in names:
                 data, prec, nexp, var1, ksum = packed[(li, name)]
-                lab = '%s%2d%2d%-4s%4d%14.7E%14.7E' % (tstr, li, 99, name, nexp, prec, var1)
+                lab = '%s%2d%2s%-4s%4d%14.7E%14.7E' % (tstr, li, gridtxt, name, nexp, prec, var1)
                 assert len(lab) == 50
                 out += lab.encode('ascii') + data
     return bytes(out)
@@ -147,6 +151,10 @@ def _decode_file(raw):
     if b'\x00' in raw[:50 + 108]:
         problems.append('NUL byte in the ASCII index header: %r' % raw[:158])
     nx, ny, nz = int(raw[50 + 93:50 + 96]), int(raw[50 + 96:50 + 99]), int(raw[50 + 99:50 + 102])
+    g = raw[12:14]
+    if 64 <= g[0] <= 90 and 64 <= g[1] <= 90:
+        nx += (g[0] - 64) * 1000
+        ny += (g[1] - 64) * 1000
     recl = 50 + nx * ny
     if len(raw) % recl:
         problems.append('file length %d is not a multiple of the record length %d' % (len(raw), recl))
